@@ -11,6 +11,18 @@ E3 = "exhaustive / preemption-bounded prange schedule enumeration on source-deri
 
 # id -> (built, category, technique, text, note, design_ref)
 CHECKS = {
+    "C12": (
+        True,
+        "exploration",
+        E1 + " + M1 RAMSES writer",
+        "Product of every tree of the small-scope families with every level predicate of five syntactic forms (l<=k, l<k, l==k, "
+        "a<l<b, np.logical_and) for all thresholds up to levelmax+1, alone or ANDed with a density or position predicate, with "
+        "1 cpu / 2 cpus with ghosts / particles and sinks present. Expected rows come from the model tree truncated at the "
+        "highest accepted level (refined cells of that level become leaves carrying their stored coarse values); meta['lmax'] "
+        "and, when all levels up to the cap are accepted, exact single coverage of the 2^L* lattice are checked.",
+        "Trusted: M1 writer, M2 unit table. Predicates accepting no level are outside the statement.",
+        "DESIGN.md §3 C12",
+    ),
     "C01": (
         True,
         "exploration",
